@@ -1,0 +1,148 @@
+//! Verification hooks for the gossip network (see `crate::verif`).
+#![allow(missing_docs, clippy::missing_docs_in_private_items, unreachable_pub)]
+use std::sync::Arc;
+
+use zksync_concurrency::{ctx, oneshot, sync};
+use zksync_consensus_engine::BlockStoreState;
+use zksync_consensus_roles::{node, validator};
+
+use super::{fetch, handshake, validator_addrs::ValidatorAddrsWatch};
+use crate::{verif::TcpNoise, Config};
+
+pub fn decode_handshake(bytes: &[u8]) -> anyhow::Result<Vec<u8>> {
+    Ok(zksync_protobuf::encode(&zksync_protobuf::decode::<
+        handshake::Handshake,
+    >(bytes)?))
+}
+
+fn err_name(e: &handshake::Error) -> String {
+    match e {
+        handshake::Error::GenesisMismatch => "GenesisMismatch",
+        handshake::Error::SessionIdMismatch => "SessionIdMismatch",
+        handshake::Error::PeerMismatch => "PeerMismatch",
+        handshake::Error::Signature(_) => "Signature",
+        handshake::Error::Stream(_) => "Stream",
+    }
+    .to_string()
+}
+
+/// `handshake::outbound`; Ok(peer key) or the error variant name.
+pub async fn handshake_outbound(
+    ctx: &ctx::Ctx,
+    cfg: &Config,
+    genesis: validator::GenesisHash,
+    stream: &mut TcpNoise,
+    peer: &node::PublicKey,
+) -> Result<node::PublicKey, String> {
+    handshake::outbound(ctx, cfg, genesis, &mut stream.0, peer)
+        .await
+        .map(|c| c.key)
+        .map_err(|e| err_name(&e))
+}
+
+/// `handshake::inbound`; Ok(peer key) or the error variant name.
+pub async fn handshake_inbound(
+    ctx: &ctx::Ctx,
+    cfg: &Config,
+    genesis: validator::GenesisHash,
+    stream: &mut TcpNoise,
+) -> Result<node::PublicKey, String> {
+    handshake::inbound(ctx, cfg, genesis, &mut stream.0)
+        .await
+        .map(|c| c.key.clone())
+        .map_err(|e| err_name(&e))
+}
+
+/// Sends a gossip handshake message built from explicit parts (adversary side).
+pub async fn send_handshake(
+    ctx: &ctx::Ctx,
+    stream: &mut TcpNoise,
+    session_id: node::Signed<node::SessionId>,
+    genesis: validator::GenesisHash,
+    is_static: bool,
+) -> ctx::Result<()> {
+    stream
+        .send_proto(
+            ctx,
+            &handshake::Handshake {
+                session_id,
+                genesis,
+                is_static,
+                build_version: None,
+            },
+        )
+        .await
+}
+
+/// Receives a gossip handshake message and returns its parts.
+pub async fn recv_handshake(
+    ctx: &ctx::Ctx,
+    stream: &mut TcpNoise,
+) -> ctx::Result<(node::Signed<node::SessionId>, validator::GenesisHash, bool)> {
+    let h: handshake::Handshake = stream.recv_proto(ctx, 10 * zksync_protobuf::kB).await?;
+    Ok((h.session_id, h.genesis, h.is_static))
+}
+
+/// `fetch::Queue`.
+#[derive(Default)]
+pub struct FetchQueue(pub(crate) fetch::Queue);
+
+/// The completion handle returned by `accept_block`.
+pub struct BlockCall(pub validator::BlockNumber, pub(crate) oneshot::Sender<()>);
+
+impl BlockCall {
+    /// Reports success to the requester.
+    pub fn complete(self) {
+        let _ = self.1.send(());
+    }
+}
+
+impl FetchQueue {
+    pub fn current_blocks(&self) -> Vec<u64> {
+        self.0.current_blocks()
+    }
+    pub async fn request(
+        &self,
+        ctx: &ctx::Ctx,
+        n: validator::BlockNumber,
+    ) -> ctx::OrCanceled<()> {
+        self.0.request(ctx, fetch::RequestItem::Block(n)).await
+    }
+    pub async fn accept_block(
+        &self,
+        ctx: &ctx::Ctx,
+        available: &mut sync::watch::Receiver<BlockStoreState>,
+    ) -> ctx::OrCanceled<BlockCall> {
+        let (n, s) = self.0.accept_block(ctx, available).await?;
+        Ok(BlockCall(n, s))
+    }
+}
+
+/// `ValidatorAddrsWatch`.
+#[derive(Default)]
+pub struct AddrBook(pub(crate) ValidatorAddrsWatch);
+
+impl AddrBook {
+    pub async fn update(
+        &self,
+        validators: &validator::Schedule,
+        data: &[Arc<validator::Signed<validator::NetAddress>>],
+    ) -> anyhow::Result<()> {
+        self.0.update(validators, data).await
+    }
+    pub async fn announce(
+        &self,
+        key: &validator::SecretKey,
+        addr: std::net::SocketAddr,
+        timestamp: zksync_concurrency::time::Utc,
+    ) {
+        self.0.announce(key, addr, timestamp).await
+    }
+    pub fn current(&self) -> Vec<(validator::PublicKey, Arc<validator::Signed<validator::NetAddress>>)> {
+        self.0
+            .current()
+            .iter()
+            .map(|(k, v)| (k.clone(), v.clone()))
+            .collect()
+    }
+}
